@@ -139,6 +139,9 @@ def _sentinel(lp: ast.While, env: dict[str, ast.AST]) -> tuple[str, str | None]:
     def classify(lhs: ast.AST) -> tuple[str, str | None]:
         if isinstance(lhs, ast.NamedExpr) and _is_read(lhs.value, 3):
             return "read", lhs.target.id
+        if isinstance(lhs, ast.NamedExpr) and isinstance(lhs.value, ast.Call) and (call_name(lhs.value) or "").endswith(".read") and len(lhs.value.args) == 1 \
+                and const_int(lhs.value.args[0]) is not None:
+            return "wrong-size", str(const_int(lhs.value.args[0]))
         if isinstance(lhs, ast.Name) and lhs.id in env and _is_read(env[lhs.id], 3):
             return "read", lhs.id
         if ".peek(" in unparse(lhs):
@@ -177,6 +180,12 @@ def r1_record_kinds(ctx: Ctx) -> None:
             if fmt.size == 2:
                 size_vars.append(name)
     if len(size_vars) != 1:
+        # a one-field unpack indexed with anything but 0 raises IndexError for every record
+        for name, val in env.items():
+            v = inline(val, {k: x for k, x in env.items() if k != name})
+            if isinstance(v, ast.Subscript) and unpack_call(v.value) is not None and len(unpack_call(v.value)[0].fields) == 1 and unparse(v.slice) not in ("0", "-1"):  # type: ignore[index]
+                ctx.fail(f"IncludeIpsNode.__init__:{name}", f"`{unparse(v)[:50]}` indexes a one-field unpack result with {unparse(v.slice)}: IndexError on every record")
+                return
         raise AnalysisError(f"reader: record length variable not recognised ({size_vars})")
     sz = size_vars[0]
     branch = None
@@ -258,6 +267,8 @@ def r2_fields(ctx: Ctx) -> None:
     elif kind == "peek":
         ctx.fail("IncludeIpsNode.__init__:sentinel", "the EOF marker is looked for through BufferedReader.peek, which returns only what is left in the "
                  "buffer: a well-formed patch whose trailer straddles a buffer boundary (8193 or 8194 bytes) is rejected")
+    elif kind == "wrong-size":
+        ctx.fail("IncludeIpsNode.__init__:sentinel", f"{hdr} bytes are read and compared with the three-byte EOF marker: the comparison can never succeed (or the record header is misaligned)")
     elif kind == "inverted":
         ctx.fail("IncludeIpsNode.__init__:sentinel", f"the loop runs WHILE the header equals the EOF marker (guard `{unparse(lp.test)}`): no record of a well-formed patch is read")
     elif kind == "extra-exit":
